@@ -13,6 +13,8 @@ struct Fault {
     bool fopen_only = false;
 };
 
+void real_store(bool on);                                    // on: faulted images are handed to the REAL mmio layer (memfd + src/mmio.c) instead of heap copies
+int64_t real_maps();                                         // how many opens went through the real layer
 void activate(bool on);                                      // off: every call passes through to the real function
 void set_image(const std::string &path, const std::string &bytes); // virtual file (exists only in the store)
 void remove_image(const std::string &path);
